@@ -7,7 +7,7 @@
    "index", not ending in the extension, and sibling names differ. *)
 From Coq Require Import List NArith.
 Import ListNotations.
-Require Import V.C34.Model V.C34.Proofs.
+Require Import V.C34.Model V.C34.Proofs V.C34.ProofsFs.
 Open Scope N_scope.
 
 (* Ext(s ++ ext) = ext: the code's repeated Ext/TrimSuffix/Join/+= ext keeps "stem + extension" *)
@@ -37,6 +37,16 @@ Theorem C34_effects_confined : forall ext out root f,
   no_creation_outside ext out (files f) (files f') (dirs f) (dirs f') = true
   /\ no_deletion_outside ext out (files f) (files f') (dirs f) (dirs f') = true.
 Proof. exact render_confined. Qed.
+
+(* ... and the run succeeds and leaves exactly one file of this run per board inside the location:
+   no file/directory clash, no board's file removed again by a later RemoveAll.  fs_pre: the ancestors
+   of the output directory are directories, no file inside the location already carries the tag of
+   this run's outputs, and for a single-board render the output path is not a directory. *)
+Theorem C34_one_file_per_board_on_fs : forall ext out root f,
+  safe_names ext root = true -> ext_wf ext = true -> out <> [] -> fs_pre ext out root f = true ->
+  snd (run (render ext out root) f) = true
+  /\ one_file_per_board ext out root (files (fst (run (render ext out root) f))) false = true.
+Proof. exact one_file_per_board_on_fs. Qed.
 
 (* Without the guard every clause fails (each witness is a corpus case of the harness and fails on the
    real CLI in the same way). *)
@@ -68,14 +78,16 @@ Proof. exact one_file_per_board_refuted_ext_suffix. Qed.
 Example C34_safe_names_satisfiable :
   let b n := Board n false [] [] [] in
   safe_names x_svg (Board [] false [Board [97; 46; 98] false [b [120]] [b [121]] []; b [108; 97; 121; 101; 114; 115]] [b [115]] [b [49]; b [50]]) = true
-  /\ ancestors_exist x_out x_fs = true.
-Proof. split; reflexivity. Qed.
+  /\ ancestors_exist x_out x_fs = true
+  /\ fs_pre x_svg x_out (Board [] false [b [120]] [] []) x_fs = true.
+Proof. repeat split; reflexivity. Qed.
 
 Print Assumptions C34_ext_stable.
 Print Assumptions C34_outputs_inside_root.
 Print Assumptions C34_removed_inside_root.
 Print Assumptions C34_outputs_distinct.
 Print Assumptions C34_effects_confined.
+Print Assumptions C34_one_file_per_board_on_fs.
 Print Assumptions C34_outputs_inside_root_refuted.
 Print Assumptions C34_removed_inside_root_refuted.
 Print Assumptions C34_outputs_distinct_refuted_index.
